@@ -79,10 +79,11 @@ fn align_node(n: &XmlNode, t: &XTree, i: usize, map: &mut NodeMap, depth: usize)
                     if a.value().unwrap_or_default() != xa.value {
                         return Err(format!("attribute #{} value {:?} vs {:?}", ai, a.value(), xa.value));
                     }
-                    if a.as_node().id() == 0 {
-                        return Err("defaulted attribute (no identity)".into());
+                    // a DTD-defaulted attribute node has id 0 (made afresh on every access): it cannot be mapped, and a
+                    // node-set that contains one shows up as "unmapped" in the comparison
+                    if a.as_node().id() != 0 {
+                        map.insert((a.as_node().id(), 1), *ai);
                     }
-                    map.insert((a.as_node().id(), 1), *ai);
                 }
                 None => return Err(format!("attribute #{} ({}) not found", ai, xa.local)),
             }
